@@ -13,5 +13,5 @@ func loadXattr(_ string, _ *types.Stat) error {
 	return nil
 }
 
-func setUnixOpt(_ os.FileInfo, _ *types.Stat, _ string, _ map[uint64]string) {
+func setUnixOpt(_ os.FileInfo, _ *types.Stat, _ string, _ map[inodeKey]string) {
 }
